@@ -9,7 +9,7 @@ def run(ck, tier, seed):
     exe = vlib.build_harness("san")
     q = tier == "quick"
     # (a) segment-making histories: every text shaped cold and after other texts, on lazy and preloaded faces
-    cfg = fl.write_cfg("_c08a_%d.cfg" % os.getpid(), Kinds='{"good", "badglyph", "awami"}', Texts="{0, 1, 2, 3, 4, 5, 6, 7, 8, 9}",
+    cfg = fl.write_cfg("_c08a_%d.cfg" % os.getpid(), Kinds='{"good", "badglyph", "awami", "underflow"}', Texts="{0, 1, 2, 3, 4, 5, 6, 7, 8, 9}",
                        ClientOps='{"shape"}' if q else '{"shape", "make_font"}', MaxOps=2 if q else 3)
     ok, info = fl.run_histories(ck, tmp, "segment-histories", cfg, "FaceLifeTrace.cfg", exe)
     if not ok:
